@@ -4,6 +4,7 @@ A :class:`World` is one history: a fresh ``UrwidImageScreen`` writing into a cap
 stream, a set of real ``UrwidImage`` widgets (kitty / iterm2 / block) and the operations of
 ``specs/UrwidScreen.tla``: start, stop, clear, redraw (a real urwid widget tree built from a
 layout description), same (the canvas object drawn last), bad (size mismatch -> urwid raises),
+release (the application drops its reference to the canvas it passed last: canvas LIFETIME),
 new / drop (``del`` + ``gc.collect()``) / inval (``widget._invalidate()``).
 
 Every operation appends one event to ``world.events`` holding the lexed bytes of exactly that
@@ -124,6 +125,7 @@ class World:
         self.gfx: list[dict] = [_slim(lexer.GFX_NONE)]
         self.events: list[dict] = []
         self.last_canvas = None
+        self.released = False  # the application has let go of last_canvas (see release())
         self.invalid: set[int] = set()
         self.started = False
 
@@ -397,9 +399,28 @@ class World:
             self.screen._resized = False
         self._event("handled", exc=exc)
 
+    def release(self) -> None:
+        """The application drops its reference to the canvas it passed to draw_screen last (urwid's
+        MainLoop.draw_screen does so on return).  Whoever else holds the canvas keeps it alive (urwid holds
+        the canvas it painted last); a frame that was dropped or that failed is held by nobody.
+        The harness's own reference goes when the next frame is rendered (see redraw): nothing of the
+        screen runs in between that could tell the difference, and the next canvas is then allocated
+        right after the old one was freed - the situation in which CPython reuses the address."""
+        if self.last_canvas is None:
+            raise MachineryError("release without a canvas")
+        self.released = True
+        self._event("release")
+
+    def _let_go(self) -> None:
+        if self.released:
+            self.released = False
+            gc.collect()  # garbage first: the canvas itself goes by reference count, last
+            self.last_canvas = None
+
     def redraw(self, lay: dict, *, bad: bool = False, lost: bool = False) -> str:
         size = (self.cols, self.rows)
         tree = self.build(lay, *size)
+        self._let_go()
         canvas = tree.render(size, focus=True)
         del tree
         maxres = (self.cols, self.rows + 1) if bad else size
@@ -413,8 +434,8 @@ class World:
         return exc
 
     def same(self, lay: dict) -> str:
-        if self.last_canvas is None:
-            raise MachineryError("same without a previous canvas")
+        if self.last_canvas is None or self.released:
+            raise MachineryError("same without a previous canvas (or after the application released it)")
         exc = self._call(self.screen.draw_screen, (self.cols, self.rows), self.last_canvas)
         toks = self._take()
         full = self._paint_full(self.last_canvas) if (self.full_paint and not exc) else []
